@@ -59,6 +59,31 @@ void profile_cfg_more(const std::string &prof, uint64_t seed, RunCfg &c, Rng &r)
     c.allow_cancel_in_cb = 0;
     c.beh_w = {45, 4, 2, 0, 3, 0, 5, 35, 4, 1, 1, 0, 1, 0, 0};
     c.qcache_max_ttl = 0;
+  } else if (prof == "C09") {
+    c.allow_cancel_in_cb = 0;
+    c.servers.clear();
+    int ns = 1 + (int)r.below(6);
+    for (int i = 0; i < ns; i++) { ServerSpec sv; bool v6 = r.chance(0.25); sv.ip = v6 ? "fd53::" + std::to_string(i + 1) : "10.53.0." + std::to_string(i + 1); if (r.chance(0.2)) { sv.udp_port = 5300 + i; sv.tcp_port = sv.udp_port; } c.servers.push_back(sv); }
+    c.knobs["nactive"] = 1 + (int64_t)r.below((uint64_t)ns);
+    c.rotate = (int)r.below(2) ? 1 : 0;
+    c.retry_chance = r.chance(0.3) ? 0 : (r.chance(0.5) ? 1 : 2 + (int)r.below(8));
+    c.retry_delay = r.chance(0.3) ? 0 : (r.chance(0.5) ? 100 + (int)r.below(900) : 3000 + (int)r.below(7000));
+    int f = ARES_FLAG_NOALIASES | ARES_FLAG_NOSEARCH;
+    if (r.chance(0.7)) f |= ARES_FLAG_EDNS;
+    if (r.chance(0.3)) f |= ARES_FLAG_STAYOPEN;
+    if (r.chance(0.15)) f |= ARES_FLAG_NOCHECKRESP;
+    c.flags = f;
+    c.tries = 1 + (int)r.below(4); c.timeout_ms = 100 + (int)r.below(600); c.maxtimeout_ms = -1;
+    c.udp_max_queries = r.chance(0.7) ? -1 : 1 + (int)r.below(3);
+    c.qcache_max_ttl = 0;
+    c.set_domains = 1; c.domains.clear(); c.lookups = "b";
+    c.beh_w = {55, 8, 5, 2, 3, 1, 3, 18, 2, 1, 2, 0, 0, 0, 0};
+    if (r.chance(0.3)) c.beh_w = {30, 15, 8, 0, 0, 0, 0, 45, 0, 0, 2, 0, 0, 0, 0};
+    c.zone_w = {70, 15, 15, 0};
+    for (auto &sv : c.servers) sv.cookie_mode = CK_NONE;
+    c.server_source = 0; c.resolv_conf = "nameserver 10.99.99.99\n";
+    c.knobs["kind_mask"] = (1 << K_SEND_DNSREC) | (1 << K_QUERY_DNSREC) | (1 << K_QUERY) | (1 << K_SEND) | (1 << K_GETADDRINFO) | (1 << K_GETHOSTBYNAME);
+    c.sock_create_cb = 0; c.sock_config_cb = 0; c.pending_write_cb = 0;
   } else if (prof == "C13") {
     c.allow_cancel_in_cb = 0;
     int f = ARES_FLAG_NOALIASES;
@@ -232,6 +257,15 @@ bool profile_plan_more(const RunCfg &c, Rng &r, std::vector<Step> &plan) {
   if (p == "C03") { gen(c, r, plan, weights({{S_REQ, 40}, {S_ADV, 45}, {S_CHUNK, 10}, {S_STALL, 1}, {S_FAULT, 2}}), 20, 120); for (auto &s : plan) if (s.k == S_FAULT) { s.a = FC_SEND; s.b = 0; s.c = 2 + 4 * (r.chance(0.5) ? 1 : 0) + 16 * (int64_t)r.below(20); } return true; }
   if (p == "C06") { gen(c, r, plan, weights({{S_REQ, 22}, {S_ADV, 50}, {S_STALL, 4}, {S_NETOP, 6}, {S_FAULT, 10}, {S_PARTITION, 3}, {S_SETSRV, 3}, {S_REINIT, 1}, {S_CHUNK, 2}}), 20, 120); return true; }
   if (p == "C07") { gen(c, r, plan, weights({{S_REQ, 25}, {S_ADV, 60}, {S_STALL, 8}, {S_NETOP, 4}, {S_PARTITION, 3}, {S_CANCEL, 1}}), 20, 140); return true; }
+  if (p == "C09") {
+    gen(c, r, plan, weights({{S_REQ, 30}, {S_ADV, 48}, {S_STALL, 6}, {S_PARTITION, 6}, {S_HEAL, 2}, {S_SETSRV, 4}, {S_FAULT, 4}}), 25, 150);
+    for (auto &s : plan) {
+      if (s.k == S_REQ) s.d = (s.d / R_NREACT) * R_NREACT + R_NONE;
+      if (s.k == S_FAULT) { static const int cls[] = {FC_SOCKET, FC_CONNECT, FC_RECV}; s.a = cls[r.below(3)]; s.c = 3; s.d = 0; }   // open/connect failures, receive errors on UDP (scope 3)
+      if (s.k == S_STALL) s.a = r.chance(0.5) ? (int64_t)r.below(1500) : (int64_t)r.below(12000);
+    }
+    return true;
+  }
   if (p == "C13") {
     gen(c, r, plan, weights({{S_REQ, 32}, {S_ADV, 60}, {S_FAULT, 6}, {S_SORTLIST, 2}}), 20, 130);
     for (auto &s : plan) {
@@ -488,6 +522,95 @@ static void c06_after(Run &run) {
       unsigned long rounds = ns ? q[i].try_count / ns : 0;
       if (rounds < 40) { long long ub = 5000LL << rounds; if (wait_ms > ub) run.violate("C06", "wait_above_envelope", "attempt in round " + std::to_string(rounds) + " waits " + std::to_string(wait_ms) + " ms > 5000 * 2^round"); }
       if (rounds >= 1) run.note("attempt_in_later_round");
+    }
+  }
+}
+
+// ---------------------------------------------------------------------------------------------
+// C09: server selection follows the failover policy
+// ---------------------------------------------------------------------------------------------
+static int c09_server_of_string(const Run &run, const std::string &srv) {
+  for (size_t i = 0; i < run.cfg.servers.size(); i++) {
+    const std::string &ip = run.cfg.servers[i].ip;
+    size_t p = srv.find(ip);
+    if (p == std::string::npos) continue;
+    char after = p + ip.size() < srv.size() ? srv[p + ip.size()] : 0;
+    if (after == ':' || after == ']' || after == 0 || after == '%') return (int)i;
+  }
+  return -1;
+}
+static void c09_end(Run &run) {
+  if (run.cfg.profile != "C09") return;
+  size_t ns = run.cfg.servers.size();
+  // replay the public event stream and the transmissions in call-log order
+  struct Ev { uint32_t seq; int kind; int idx; };   // kind 0 = server-state event, 1 = transmission, 2 = list edit
+  std::vector<Ev> evs;
+  for (size_t i = 0; i < run.srv_events.size(); i++) evs.push_back({run.srv_events[i].seq, 0, (int)i});
+  for (size_t i = 0; i < W.txs.size(); i++) evs.push_back({W.txs[i].seq, 1, (int)i});
+  for (size_t i = 0; i < run.active_hist.size(); i++) evs.push_back({run.active_hist[i].seq, 2, (int)i});
+  std::stable_sort(evs.begin(), evs.end(), [](const Ev &a, const Ev &b) { return a.seq < b.seq; });
+  std::vector<long> fails(ns, 0);
+  std::vector<int64_t> last_fail(ns, -1);
+  std::vector<int> active = run.active_hist.empty() ? std::vector<int>() : run.active_hist[0].list;
+  std::map<std::string, std::set<int>> group_qids;        // token|qname|type -> query ids seen
+  std::map<std::string, int> qid_tx_count;                // group|qid -> transmissions
+  std::map<std::string, int> probe_target;                // group|qid -> server, for transmissions classified as probes
+  std::map<std::string, bool> downgraded;                  // group|qid -> saw FORMERR-without-OPT answer being sent by that server
+  long chance = run.cfg.retry_chance < 0 ? 10 : run.cfg.retry_chance;
+  long delay_ms = run.cfg.retry_delay < 0 ? 5000 : run.cfg.retry_delay;
+  bool rotate = run.eff_rotate != 0;
+  for (auto &e : evs) {
+    if (e.kind == 2) { active = run.active_hist[(size_t)e.idx].list; for (size_t i = 0; i < ns; i++) if (std::find(active.begin(), active.end(), (int)i) == active.end()) { fails[i] = 0; last_fail[i] = -1; } continue; }
+    if (e.kind == 0) {
+      const Run::SrvEv &se = run.srv_events[(size_t)e.idx];
+      int si = c09_server_of_string(run, se.server);
+      if (si < 0) { run.violate("C09", "unknown_server_in_callback", "server-state callback names '" + se.server + "', which is not a configured server"); return; }
+      if (se.ok) fails[(size_t)si] = 0; else { fails[(size_t)si]++; last_fail[(size_t)si] = se.t; }
+      continue;
+    }
+    const Tx &t = W.txs[(size_t)e.idx];
+    if (t.tcp || t.server < 0 || t.msg.qd.empty() || !t.decode_err.empty()) continue;     // decisions about queued TCP frames are taken earlier than they reach the wire
+    if (std::find(active.begin(), active.end(), t.server) == active.end()) { run.note("tx_to_server_not_in_list"); continue; }
+    std::string g = std::to_string(t.token) + "|" + t.qname_lc + "|" + std::to_string(t.msg.qd[0].type);
+    std::string gq = g + "|" + std::to_string(t.msg.id);
+    bool new_qid = group_qids[g].insert((int)t.msg.id).second;
+    int nth = ++qid_tx_count[gq];
+    long mn = -1;
+    for (int a : active) if (mn < 0 || fails[(size_t)a] < mn) mn = fails[(size_t)a];
+    bool minimal = fails[(size_t)t.server] == mn;
+    int first_min = -1;
+    for (int a : active) if (fails[(size_t)a] == mn) { first_min = a; break; }
+    run.note("selection_checked");
+    if (mn >= 0 && fails[(size_t)t.server] > 0) run.note("selection_with_failed_servers");
+    // directed resend after an EDNS downgrade goes back to the same server
+    bool directed = false;
+    if (nth > 1 && !t.msg.opt()) {
+      for (size_t k = (size_t)e.idx; k-- > 0;) { const Tx &p = W.txs[k]; if (p.msg.id == t.msg.id && p.qname_lc == t.qname_lc && !p.msg.qd.empty() && p.msg.qd[0].type == t.msg.qd[0].type) { directed = p.server == t.server && (p.behaviour == B_FORMERR_NOOPT || p.behaviour == B_FORMERR_OPT) && p.msg.opt() != nullptr; break; } }
+    }
+    if (directed) { run.note("directed_resend"); continue; }
+    if (probe_target.count(gq)) { run.violate("C09", "probe_retried", "probe copy of " + t.qname_lc + " (id " + std::to_string(t.msg.id) + ") was transmitted again (to server " + std::to_string(t.server) + ")"); return; }
+    bool ok = rotate ? minimal : (t.server == first_min);
+    if (ok) continue;
+    // not the server the policy names: only legal as a probe copy
+    bool other_qid_same_call = false;
+    for (size_t k = 0; k < W.txs.size(); k++) { const Tx &p = W.txs[k]; if (p.api_seq == t.api_seq && p.qname_lc == t.qname_lc && !p.msg.qd.empty() && p.msg.qd[0].type == t.msg.qd[0].type && p.msg.id != t.msg.id) other_qid_same_call = true; }
+    std::string why;
+    if (!new_qid || nth != 1) why = "it is a retransmission of an existing query";
+    else if (!other_qid_same_call && !(t.token >= 0 && t.token < (int)run.reqs.size() && run.reqs[(size_t)t.token].t_submit <= t.t && (run.reqs[(size_t)t.token].t_done < 0 || run.reqs[(size_t)t.token].t_done >= t.t))) why = "no user request with that question was outstanding";   // the user's own frame may still be queued on a connecting TCP socket
+    else if (chance == 0) why = "probing is disabled (retry chance 0)";
+    else if (fails[(size_t)t.server] == 0) why = "the target has no failures";
+    else if (last_fail[(size_t)t.server] >= 0 && t.t < last_fail[(size_t)t.server] + delay_ms * 1000) why = "the retry delay (" + std::to_string(delay_ms) + " ms) since its last failure has not passed";
+    if (why.empty()) { probe_target[gq] = t.server; run.note("probe_sent"); continue; }
+    std::string tab; for (int a : active) tab += " s" + std::to_string(a) + "=" + std::to_string(fails[(size_t)a]);
+    run.violate("C09", "attempt_to_demoted_server", "transmission of " + t.qname_lc + " (id " + std::to_string(t.msg.id) + ", #" + std::to_string(nth) + ") went to server " + std::to_string(t.server) + " with " + std::to_string(fails[(size_t)t.server]) + " consecutive failures; failure counts by configuration order:" + tab + (rotate ? " (rotation on)" : " (rotation off, expected server " + std::to_string(first_min) + ")") + "; not a legal probe because " + why);
+    return;
+  }
+  // probe answers never reach a user callback
+  for (auto &pt : probe_target) {
+    for (auto &t : W.txs) {
+      std::string gq = std::to_string(t.token) + "|" + t.qname_lc + "|" + (t.msg.qd.empty() ? "" : std::to_string(t.msg.qd[0].type)) + "|" + std::to_string(t.msg.id);
+      if (gq != pt.first) continue;
+      for (int rid : t.resp_ids) for (uint32_t m : W.resps[(size_t)rid].markers) for (auto &r : run.reqs) if (std::find(r.markers.begin(), r.markers.end(), m) != r.markers.end()) { run.violate("C09", "probe_answer_delivered", "the answer to a probe copy of " + t.qname_lc + " reached the callback of request " + std::to_string(r.token)); return; }
     }
   }
 }
@@ -1079,6 +1202,7 @@ void profile_attach_more(Run &run) {
   });
   auto prev_after = run.after_step;
   run.after_step = [prev_after, p](Run &r) { if (prev_after) prev_after(r); c06_after(r); if (r.cfg.mode == 0) c10_after(r); };
+  if (p == "C09") run.at_end = c09_end;
   if (p == "C12") {
     run.world_ready.push_back([](Run &r) {
       Run *rp = &r;
@@ -1123,6 +1247,7 @@ bool profile_nontrivial(const Run &run) {
   if (p == "C05") return base && get("forged_packet") > 0;
   if (p == "C12") return base && get("search_walk_multi_candidate") > 0;
   if (p == "C13") return base && get("address_set_checked") > 0;
+  if (p == "C09") return base && get("selection_with_failed_servers") > 0;
   if (p == "C20") return base && get("differential_compared") > 0 && (W.stat.count("send_short") || W.stat.count("recv_short") || W.stat.count("send_eagain_window") || W.stat.count("recv_eagain_injected") || get("zero_length_datagram") > 0 || !W.fault_fired.empty());
   if (p == "C01") return base && (get("req_from_callback") + get("cancel_in_callback") + get("cancel_with_outstanding") > 0 || !W.fault_fired.empty());
   return base;
@@ -1132,6 +1257,7 @@ const char *profile_rule(const std::string &prof) {
   if (prof == "C03") return "runs are seeded plans (requests by name / setter-built multi-record messages / legacy builder, transport chunking so frames queue behind unsent bytes); non-trivial = at least one setter-built frame or one delivered answer was compared with the reference codec; distinct = distinct trace-shape hash";
   if (prof == "C06") return "runs are seeded plans over per-attempt server outcomes, option extremes (tries up to 100, timeouts 1 ms..INT_MAX, maxtimeout below the floor), list edits; non-trivial = at least one attempt's wait was checked against the envelope and traffic was processed; distinct = distinct trace-shape hash";
   if (prof == "C07") return "runs are seeded plans with silent/slow servers and sleep-exactly/overshoot/stall steps; non-trivial = the hint was compared with a real deadline and at least one loop turn ran with an expired deadline; distinct = distinct trace-shape hash";
+  if (prof == "C09") return "runs are seeded success/failure histories over 1..6 servers (silence, error rcodes, partitions, open/connect/receive failures), rotation on/off, failover options (retry chance 0/1/n, retry delay 0/short/long), server-list edits in flight and clock advances across the retry delay; a reference health table is driven by the public server-state callback stream and every UDP transmission must go to a server the policy allows or be a legal probe copy; non-trivial = at least one transmission was judged while some server had failures; distinct = distinct trace-shape hash";
   if (prof == "C13") return "runs are seeded sets of getaddrinfo/gethostbyname/gethostbyaddr/getnameinfo requests (families, hint flags, ports, sortlists, lookup orders, hosts-file names, literals, localhost) against answers with 1..40 unique marker addresses, CNAME chains, other-family and foreign-class records in the answer section and address records in the additional section, with faults on the source-address discovery used for sorting; non-trivial = at least one DNS-answered address set was compared as a multiset with the accepted answers; distinct = distinct trace-shape hash";
   if (prof == "C12") return "runs are seeded sets of search/getaddrinfo/gethostbyname requests over name shapes (0..4 dots, trailing dot, long labels, names that stop fitting once a domain is appended, host aliases) x ndots x domain lists (incl. root) x flags, with a per-candidate outcome (data, NODATA, NXDOMAIN, SERVFAIL, REFUSED, timeout) fixed by keyed hash; the question names seen at the virtual server and the final status are compared with an independent resolv.conf(5) reference; non-trivial = at least one request whose reference candidate list has more than one entry was checked; distinct = distinct trace-shape hash";
   if (prof == "C05") return "runs are seeded histories of genuine traffic (loss, delay, duplicates, late replies, error rcodes, TC) with an off-path adversary injecting datagrams that differ from the would-be-valid reply in one respect (id, socket, source address, name, type, class, question count, letter case, cookie) at chosen instants of a query's life; every delivered datum carries a unique marker naming its packet; non-trivial = at least one forged packet was injected while traffic was processed; distinct = distinct trace-shape hash";
